@@ -33,6 +33,7 @@ const tokensBufSize = 10
 
 type lexer struct {
 	inputs     <-chan string
+	inputsDone bool
 	input      string
 	lpUpd      func(string, int)
 	start, pos int
@@ -76,19 +77,21 @@ const (
 )
 
 // next gets the next rune from the input.
+// More input is fetched when the current one is used up, and also when it
+// ends in the middle of a multi-byte UTF-8 sequence, so that a chunk boundary
+// can fall anywhere. Empty chunks carry nothing and are skipped.
 func (l *lexer) next() (r rune) {
-	if l.pos >= len(l.input) {
+	for !l.inputsDone &&
+		(l.pos >= len(l.input) || !utf8.FullRuneInString(l.input[l.pos:])) {
+
 		s, ok := <-l.inputs
 		if !ok {
-			if l.pos == l.start {
-				l.width = 0
-				return eof
-			}
-			// continue with leftover + s
+			l.inputsDone = true
+			break
 		}
-		l.input = l.input[l.start:l.pos] + s
+		l.lpUpd(s, l.posShift+len(l.input))
+		l.input = l.input[l.start:] + s
 		l.posShift += l.start
-		l.lpUpd(s, l.posShift+l.pos-l.start)
 		l.pos -= l.start
 		l.start = 0
 	}
